@@ -34,6 +34,7 @@ func vhAppendSeg(p *Path, kind int) [][2]float64 {
 }
 
 func VH_C08_fastbounds_hull() {
+	vMerge(false) // bit-precise min/max terms: many small queries beat one merged query
 	p := &Path{}
 	x0, y0 := vhCoord(), vhCoord()
 	p.d = append(p.d, MoveToCmd, x0, y0, MoveToCmd)
